@@ -274,7 +274,7 @@ Lemma build_table_valid n Sc st adds t flds fs ref es st' :
   Forall farg_wf adds -> Z.of_nat (length adds) <= 32765 -> table_fits adds ->
   table_fields Sc t = Some flds -> fields_built n Sc st adds flds fs ->
   build_table st adds = Some (ref, es, st') -> small st' ->
-  step st st' /\ cache_ok st' /\ e_start st' = ref /\ ref mod 4 = 0 /\
+  step st st' /\ cache_ok st' /\ e_start st' = ref /\ ref < e_start st /\ ref mod 4 = 0 /\
   valid (S n) Sc st' (lvl_align st') (OTable t) ref (VTable fs).
 Proof.
   intros Hok Hma Hc Hw Hlen Hfit Hflds Hfb E Hsm. unfold build_table in E.
@@ -335,7 +335,7 @@ Proof.
   split; [exact Hstep|].
   split.
   { eapply cache_ok_step; [exact (step_trans _ _ _ Hst1' Hst2) | congruence | lia | exact Hc1]. }
-  split; [exact Hs2|]. split; [exact Hr4|].
+  split; [exact Hs2|]. split; [pose proof (s_start _ _ Hst1); clear Hfa Href4 Hr4 Hvev; lia|]. split; [exact Hr4|].
   (* decoding *)
   apply mem_has_app in Hmem. destruct Hmem as [Hmso Hmem]. apply mem_has_app in Hmem. destruct Hmem as [Hmdata _].
   rewrite lenZ_le32 in Hmdata.
